@@ -50,9 +50,12 @@ Proof.
 Qed.
 
 (* the pure helpers never report OutOfFuel *)
+Lemma nf_glob_match a b : nofuel (glob_match a b).
+Proof. unfold glob_match. destruct (Bounds.match_key a b); discriminate. Qed.
+
 Ltac nf_pure :=
   repeat first
-    [ apply nf_ok | apply nf_err | apply nf_unsup | apply nf_panic
+    [ apply nf_ok | apply nf_err | apply nf_unsup | apply nf_panic | apply nf_glob_match
     | apply nf_bind; [ | intros ]
     | apply each_nf; intros
     | match goal with |- nofuel (match ?x with _ => _ end) => destruct x end
@@ -65,7 +68,16 @@ Lemma nf_mk_bool st o b : nofuel (mk_bool st o b). Proof. nf_pure. Qed.
 Lemma nf_first_text st ps d : nofuel (first_text st ps d). Proof. nf_pure. Qed.
 Lemma nf_Z_of_index s : nofuel (Z_of_index s). Proof. nf_pure. Qed.
 Lemma nf_int_of s : nofuel (int_of s). Proof. nf_pure. Qed.
-Lemma nf_trav_map ro k p es st : nofuel (trav_map ro k p es st). Proof. unfold trav_map. nf_pure. Qed.
+Lemma nf_find_glob es pat i : nofuel (find_glob es pat i).
+Proof.
+  revert i. induction es as [|[k v] es IH]; intros i; cbn [find_glob]; [apply nf_ok|].
+  apply nf_bind; [apply nf_glob_match|]. intros b. apply nf_bind; [apply IH|]. intros t. apply nf_ok.
+Qed.
+Lemma nf_trav_map ro k p es st : nofuel (trav_map ro k p es st).
+Proof.
+  unfold trav_map. destruct (is_wild k); [|nf_pure].
+  apply nf_bind; [apply nf_find_glob|]. intros idxs. nf_pure.
+Qed.
 Lemma nf_trav_index ro p items idx st : nofuel (trav_index ro p items idx st). Proof. unfold trav_index. nf_pure. Qed.
 Lemma nf_trav_key ro k p st : nofuel (trav_key ro k p st).
 Proof. unfold trav_key. apply nf_bind; [apply nf_deref|]. intros [t v|items|es]; nf_pure; try apply nf_trav_map; try apply nf_trav_index. Qed.
